@@ -747,7 +747,17 @@ def contains(I, ctx, container, item):
             return wrap(map_from_dict(I, ctx, container).lookup(item)[0])
     if isinstance(container, SetVal):
         from .interp import hkey
-        return hkey(item) in container.items
+        has_sym = any(isinstance(k, tuple) and k[:1] == ("symbolic-element",) for k in container.items)
+        try:
+            k = hkey(item)
+            if k in container.items:
+                return True
+            if not has_sym:
+                return False
+        except Unsupported:
+            pass
+        # symbolic elements (kept apart in the model) or a symbolic item: membership is an equality with some element
+        return contains(I, ctx, ListVal(list(container.items.values())), item)
     if isinstance(container, str):
         it = enum_str(item)
         if isinstance(it, str):
